@@ -27,8 +27,13 @@ ListOk(f, w)  == f.outcome = "ok" /\ f.top = "IN" /\ Len(f.items) = 3
 \* (a quoted text holding * or ? is a plain string too, but the list is then no longer an IN list of plain values on the pinned tree:
 \* the clause is about lists of plain values)
 HasWild(w) == \E i \in DOMAIN w : w[i] \in {42, 63}
+\* the quoted text as a bare term under an operator, scoped by a default field ("w" AND g:y, default field dd): still that plain string
+DfOk(f, w) == f.outcome = "ok" /\ f.top = "AND" /\ f.lop = "EQUALS" /\ f.col = <<100,100>>
+              /\ f.op = "LIT" /\ f.ty = "str" /\ f.codes = w
+              /\ f.par_out = "ok" /\ Len(f.params) = 2 /\ f.params[1].ty = "str" /\ f.params[1].codes = w
 C08(c) ==
-     (IF "listed" \notin DOMAIN c \/ HasWild(c.w) \/ ListOk(c.listed, c.w) THEN <<>> ELSE <<Fail(c, "quoted text as a list item is not that string value / parameter")>>)
+     (IF "dfterm" \notin DOMAIN c \/ DfOk(c.dfterm, c.w) THEN <<>> ELSE <<Fail(c, "quoted text as a default-field term under an operator is not that string value / parameter")>>)
+  \o (IF "listed" \notin DOMAIN c \/ HasWild(c.w) \/ ListOk(c.listed, c.w) THEN <<>> ELSE <<Fail(c, "quoted text as a list item is not that string value / parameter")>>)
   \o (IF TreeOk(c.quoted, c.w)  THEN <<>> ELSE <<Fail(c, "quoted text is not that string value in the tree")>>)
   \o (IF SqlOk(c.quoted, c.w)   THEN <<>> ELSE <<Fail(c, "quoted text is not that constant in the inline SQL")>>)
   \o (IF ParamOk(c.quoted, c.w) THEN <<>> ELSE <<Fail(c, "quoted text is not that parameter")>>)
